@@ -84,3 +84,11 @@ package domainmatcher
 //@   modifies obj(m.m)
 //@   ensures [C11:full-added] has(m.m, n)
 //@   ensures [C11:full-others] forallkey(k, m.m, has(m.m, k) == (old(has(m.m, k)) || k == keyOf(m.m, n)))
+
+// MixMatcher.Match is a function of the matcher's (immutable after load) state and the name bytes.
+// Its regexp leg is outside the verifier's reach, so the result is an uninterpreted spec function.
+//@ spec func mmatch(m *MixMatcher, n []byte) bool
+//@ func (m *MixMatcher) Match(n []byte) (ok bool)
+//@   trusted
+//@   modifies nothing
+//@   ensures ok == mmatch(m, n)
